@@ -22,6 +22,7 @@ type Desc struct {
 	Mode     string `json:"mode,omitempty"`    // duplex | lockstep | updown
 	How      string `json:"how,omitempty"`     // unblock: close | peer-gone
 	Version  string `json:"version,omitempty"` // e2e-netconf: 1.0 | 1.1
+	Paced    bool   `json:"paced,omitempty"`   // e2e-netconf: slow log sink (30 ms per lone return) + device that sends replies in two halves 80 ms apart
 	Seed     int64  `json:"seed"`
 }
 
